@@ -6,7 +6,7 @@ from props.common import TRUSTED_BASE, ASSUMPTIONS
 
 ID = "C15"
 FORMAT_GROUP = "syntax"
-LEAN_MODULES = ["LexVerif.Props.C15", "LexVerif.Props.Literals.ParseFloatParse", "LexVerif.Props.Literals.ParseFloatShared", "LexVerif.Props.Literals.ParseFloatOptions", "LexVerif.Props.Literals.WriteFloatWrite", "LexVerif.Props.Literals.WriteFloatOptions", "LexVerif.Props.Literals.UtilNum", "LexVerif.Props.Literals.UtilSkip"]
+LEAN_MODULES = ["LexVerif.Props.C15", "LexVerif.Props.C15Write", "LexVerif.Props.Literals.ParseFloatParse", "LexVerif.Props.Literals.ParseFloatShared", "LexVerif.Props.Literals.ParseFloatOptions", "LexVerif.Props.Literals.WriteFloatWrite", "LexVerif.Props.Literals.WriteFloatOptions", "LexVerif.Props.Literals.UtilNum", "LexVerif.Props.Literals.UtilSkip"]
 GEN = ["literals"]
 TRUSTED = TRUSTED_BASE + [
     "the special-string grammar for flagged formats (no_special, case_sensitive_special, special_digit_separator) is specified by Spec.Grammar; for plain formats by Spec.StdFloat.parseSpecial",
@@ -15,9 +15,9 @@ RULE = ("inputs near the three special strings (exact, every case variant class,
         "embedded digits) x option strings (defaults, 1-letter, 50-letter, mixed case, inf/infinity prefix-related pairs, None) x formats {STANDARD, no_special, "
         "case_sensitive_special, special_digit_separator, radix-36 where the strings are digit strings} x {f32,f64} x partial/complete; writer: NaN (both signs, "
         "payloads), +-inf, +-0 with every option-string variant incl. None (must panic) and required_mantissa_sign. non-trivial = accepted special or written special; distinct = distinct ops")
-TECHNIQUE = "Lean 4 proof (special_iff / numeric_never_nan / sign preservation on the model and grammar) + correspondence on inputs around the configured strings and on special-value writes"
+TECHNIQUE = "Lean 4 proof (special_iff / numeric_never_nan / sign preservation on the model and grammar; writer half nan_written_as_configured / nan_never_minus / inf_written_with_sign / finite_written_with_sign / disabled_special_panics on the write_float model) + correspondence on inputs around the configured strings and on special-value writes"
 LEVEL_TEXT = ("Proved in Lean (Props/C15.lean): on the specification grammar a non-numeric input is accepted as NaN/inf exactly when, after the optional sign, it equals a configured string "
-              "under the case rule; numeric inputs never give NaN; signs of zero and infinity are preserved; the model's special-value parser agrees with the grammar for plain formats. "
+              "under the case rule; numeric inputs never give NaN; signs of zero and infinity are preserved; the model's special-value parser agrees with the grammar for plain formats. Writer half (Props/C15Write.lean, on the buffer-faithful write_float model): a completed call on any NaN returns the configured string after at most a '+' and never a '-'; +-infinity and every finite value incl. +-0 carry '-' exactly when the sign bit is set; a special whose string is None makes the call panic (no return, no fault). "
               "The implementation is tied to model and grammar by correspondence over a dense neighbourhood of the configured strings, and the writer's special/zero output is compared byte-for-byte with the model.")
 LEVEL_NOTE = "Trusted: Lean kernel; model<->code correspondence; option-string validators are exercised (invalid strings must be rejected by the builder) but modelled by correspondence only."
 
